@@ -74,7 +74,7 @@ def inspect_matrix(ctx, case, where, m, kind, nrows):
             ctx.fail("getitem", case, f"{where}: [{name!r}] is not design_matrix[:, {sl.start}:{sl.stop}]", kind)
     if start != x.shape[1]:
         ctx.fail("slices", case, f"{where}: slices cover {start} of {x.shape[1]} columns", kind + ":cover")
-    for bad in ("no such term", "", "Intercept ", names[0] + " "):
+    for bad in ("no such term", "", "Intercept ", names[0] + " ", names[0][:-1], names[-1][1:], names[0].upper() + "_"):
         if bad in m.slices:
             continue
         try:
@@ -97,6 +97,9 @@ def inspect_matrix(ctx, case, where, m, kind, nrows):
                 ctx.fail("views", case, f"{where}: as_dataframe() holds other numbers than design_matrix", kind + ":dataframe")
             if len(set(df.columns)) != len(df.columns):
                 ctx.fail("views", case, f"{where}: data-frame labels are not unique: {list(df.columns)}", kind + ":labels")
+            want_cols = [l for t in m.terms.values() for l in t.labels]
+            if list(df.columns) != want_cols:
+                ctx.fail("views", case, f"{where}: data-frame labels {list(df.columns)} are not the labels of the terms in term order {want_cols}", kind + ":label_order")
     for fn in (str, repr):
         try:
             text = fn(m)
